@@ -1,7 +1,8 @@
 """Unit func_env: applying a function binds its parameters to the arguments positionally - parameter i to argument i.
 
 Real code under contract:
-  prqlc/prqlc/src/semantic/resolver/functions.rs  env_of_closure (whole function)
+  prqlc/prqlc/src/semantic/resolver/functions.rs  env_of_closure (whole function),
+                                                  materialize_function: everything up to the statement that pops the parameter environment again (slice)
 """
 import re
 
@@ -11,8 +12,8 @@ from extract import ExtractionError
 
 FUNCTIONS_RS = "prqlc/prqlc/src/semantic/resolver/functions.rs"
 
-LABELS = ["EC1", "EC2", "EC3", "ECI"]
-FUNCTIONS = ["env_of_closure"]
+LABELS = ["EC1", "EC2", "EC3", "ECI", "MF1", "MF2"]
+FUNCTIONS = ["env_of_closure", "materialize_head"]
 RLIMIT = 80
 
 ASSUMED = [
@@ -24,11 +25,18 @@ ASSUMED = [
      "keys": ["struct PlExpr", "struct NameMap", "fn view", "fn insert", "fn verif_zip", "fn last_segment_of", "spec fn last_segment", "fn to_string_s", "fn box_ty", "fn module_default",
               "fn expr_id"]},
     common_std.VERIF_ITER_ASSUMPTION,
+    {"what": "Resolver is the shim {root_mod.module (stack_push: external, no contract), current_module_path, ghost log}; Resolver::fold_expr is external: it records "
+             "(expression, module path in effect) in the log and leaves the path alone; Ident is the shim {path, name}; Vec<String>::clone returns an equal vector; "
+             "std::mem::replace stores the new value and returns the old one",
+     "keys": ["struct Resolver", "struct RootModule", "struct ModuleStack", "fn stack_push", "fn fold_expr", "struct Ident", "fn clone_path", "fn mem_replace_path"]},
 ]
 TRUSTED = [
     "oracle (C06): replacing an expression by a call of a function whose body is that expression must not change the result: inside the body, parameter i denotes "
     "argument i (positional binding, in declaration order; named parameters were moved to the front by apply_args_to_closure), and nothing else is bound",
-    "how the environment is then used (Module::stack_push, fold_expr of the body) is not under contract",
+    "oracle (C06): moving a function and the declarations it uses into a module must not change the result: the names in a function's body mean what they mean where the "
+    "function is DECLARED, so the body is resolved with the declaring module as the current module (MF1: name_hint is the fully qualified name given by fold_statements), "
+    "and the call site's module path is in effect again afterwards, error or not (MF2)",
+    "how the environment is then used (Module::stack_push) is not under contract",
 ]
 
 PRELUDE = r"""
@@ -42,7 +50,8 @@ pub type Expr = PlExpr;
 pub type Ty = OpaqueT;
 pub uninterp spec fn expr_id_spec(e: Expr) -> Option<usize>;
 pub struct FuncParam { pub name: String }
-pub struct Func { pub params: Vec<FuncParam>, pub args: Vec<Expr>, pub body: Box<Expr>, pub return_ty: Option<Ty> }
+pub struct Ident { pub path: Vec<String>, pub name: String }
+pub struct Func { pub name_hint: Option<Ident>, pub params: Vec<FuncParam>, pub args: Vec<Expr>, pub body: Box<Expr>, pub return_ty: Option<Ty> }
 pub enum DeclKind { Expr(Box<Expr>), Other(OpaqueT) }
 pub struct Decl { pub declared_at: Option<usize>, pub kind: DeclKind }
 #[verifier::external_body] pub struct NameMap { _p: u8 }
@@ -62,6 +71,21 @@ pub uninterp spec fn last_segment(s: Seq<char>) -> Seq<char>;
 #[verifier::external_body] pub fn last_segment_of(s: &String) -> (r: String) ensures r@ == last_segment(s@), { unimplemented!() }
 #[verifier::external_body] pub fn expr_id(e: &Expr) -> (r: Option<usize>) ensures r == expr_id_spec(*e), { unimplemented!() }
 #[verifier::external_body] pub fn box_ty(t: Option<Ty>) -> (r: Option<Box<Ty>>) ensures r is Some <==> t is Some, r is Some ==> *r->0 == t->0, { unimplemented!() }
+
+#[verifier::external_body] pub struct ModuleStack { _p: u8 }
+impl ModuleStack { #[verifier::external_body] pub fn stack_push(&mut self, ns: &str, m: Module) { unimplemented!() } }
+pub struct RootModule { pub module: ModuleStack }
+pub const NS_PARAM: &'static str = "_param";
+pub struct Resolver { pub root_mod: RootModule, pub current_module_path: Vec<String>, pub log: Ghost<Seq<(Expr, Seq<String>)>> }
+impl Resolver {
+    #[verifier::external_body]
+    pub fn fold_expr(&mut self, e: Expr) -> (r: Result<Expr, Error>)
+        ensures final(self).current_module_path == old(self).current_module_path, final(self).log@ == old(self).log@.push((e, old(self).current_module_path@)),
+    { unimplemented!() }
+}
+#[verifier::external_body] pub fn clone_path(v: &Vec<String>) -> (r: Vec<String>) ensures r@ == v@, { unimplemented!() }
+#[verifier::external_body] pub fn mem_replace_path(dest: &mut Vec<String>, src: Vec<String>) -> (r: Vec<String>) ensures *final(dest) == src, r == *old(dest), { unimplemented!() }
+pub open spec fn declaring_path(f: Func, call_site: Seq<String>) -> Seq<String> { match f.name_hint { Some(n) => n.path@, None => call_site } }
 
 pub open spec fn n_bound(f: Func) -> int { if f.params@.len() <= f.args@.len() { f.params@.len() as int } else { f.args@.len() as int } }
 pub open spec fn key(f: Func, i: int) -> Seq<char> { last_segment(f.params@[i].name@) }
@@ -116,4 +140,20 @@ def build(X):
             }
         }
     """, "proof hint: one more parameter bound")
-    return PRELUDE + ec.text + "\n} // verus!\nfn main() {}\n"
+    # ---- materialize_function: up to the pop of the parameter environment
+    mf = X.slice(FUNCTIONS_RS, "materialize_function", "{", "let func_env = self.root_mod.module.stack_pop", name="materialize_head", include_end=False)
+    mf.text = mf.text[1:].strip()
+    mf.drop_logging()
+    mf.rewrite_re("R1", r"//[^\n]*\n", "\n", count=None, why="comments")
+    mf.desugar_option_closures()
+    mf.rewrite_re("R5", r"\b(\w+)\.path\.clone\(\)", r"clone_path(&\1.path)", count=None, why="Vec<String>::clone")
+    mf.rewrite_re("R5", r"\bstd::mem::replace\(&mut self\.current_module_path, (\w+)\)", r"mem_replace_path(&mut self.current_module_path, \1)", count=None, why="std::mem::replace")
+    mf.text = ("impl Resolver {\npub fn materialize_head(&mut self, closure: Box<Func>) -> (r: Result<Expr, Error>)\n"
+               "    ensures\n"
+               "        // the body is resolved with the module that declares the function as the current module ..\n"
+               "        final(self).log@ == old(self).log@.push((*closure.body, declaring_path(*closure, old(self).current_module_path@))), // @MF1\n"
+               "        // .. and the call site's module path is in effect again afterwards\n"
+               "        final(self).current_module_path@ == old(self).current_module_path@, // @MF2\n"
+               "{\n    " + mf.text + "\n    Ok(body)\n}\n}\n")
+    mf.rewrites.append({"rule": "slice", "what": "statements of materialize_function in front of `let func_env = self.root_mod.module.stack_pop(..)` wrapped as fn materialize_head(&mut self, closure) -> Ok(body)"})
+    return PRELUDE + ec.text + "\n" + mf.text + "\n} // verus!\nfn main() {}\n"
